@@ -117,12 +117,24 @@ def rule_growth(ctx):
     from .. import normal
     fn = normal.dealiased(tu.func('reb_simulation_add_local'))     # slot = &(r->particles[r->N]); *slot = pt  is the append
     grown = None
+    count_locals = set()
     for st in cfront.body(fn).get('inner', []):
         if st.get('kind') == 'WhileStmt' and render(st['inner'][0]).replace(' ', '') == '(r.N_allocated<=r.N)':
             if any('realloc' in render(e['inner'][1]) for e in walk(st) if is_assign(e)):
                 grown = line_of(st)
         s = strip(st)
-        if is_assign(s) and render(s['inner'][0]) == 'r.particles[r.N]':
+        slot = None
+        if is_assign(s):
+            m_ = re.match(r'^r\.particles\[(\w+)\]$', render(s['inner'][0]).replace(' ', ''))
+            if m_ and m_.group(1) in count_locals:
+                slot = m_.group(1)          # const unsigned int index = r->N (++): the slot is still "the first unused one"
+        if st.get('kind') == 'DeclStmt':
+            for d_ in st.get('inner', []):
+                if d_.get('kind') == 'VarDecl' and 'init' in d_:
+                    ini_ = [c_ for c_ in d_.get('inner', []) if c_.get('kind') not in ('FullComment',)]
+                    if ini_ and re.match(r'^\(?r\.N(\+\+)?\)?$', render(ini_[-1]).replace(' ', '')):
+                        count_locals.add(d_['name'])
+        if is_assign(s) and (render(s['inner'][0]) == 'r.particles[r.N]' or slot):
             n += 1
             if grown is None:
                 ctx.report('R14.2', 'add:growth', 'src/particle.c:%s reb_simulation_add_local' % line_of(s), 'r->particles[r->N] is written before capacity for N+1 particles is ensured (while (N_allocated<=N) realloc)')
@@ -603,7 +615,35 @@ def rule_unsorted_removal_moves(ctx, rule='R14.14'):
     ctx.covered(rule, 'unsorted removal moves exactly the last particle into the hole', n, floor=1)
 
 
+def rule_add_refusals(ctx, rule='R14.16'):
+    """R14.16: reb_simulation_add_local can refuse a particle (outside the box, no box configured for a tree code): it reports
+    an error and returns. A refusal has to come before the particle is counted - once r->N has been incremented the particle
+    is part of the simulation (found by index and hash, shifting every later index) although the tree never saw it. No error
+    exit follows the increment of r->N."""
+    tu = cfront.load_tu('particle.c')
+    fn = tu.func('reb_simulation_add_local')
+    incs = [line_of(e) for e in walk(cfront.body(fn)) if (e.get('kind') == 'UnaryOperator' and e.get('opcode') in ('++', '++post') and render(e['inner'][0]).replace(' ', '').strip('()') == 'r.N')
+            or (is_assign(e) and render(e['inner'][0]).replace(' ', '') == 'r.N')]
+    anchor(incs, 'reb_simulation_add_local increments r->N')
+    first = min(incs)
+    n = 0
+    for comp in walk(cfront.body(fn)):
+        if comp.get('kind') != 'CompoundStmt':
+            continue
+        items = comp.get('inner', [])
+        for i, st in enumerate(items):
+            s0 = strip(st)
+            if s0.get('kind') == 'CallExpr' and callee_name(s0) == 'reb_simulation_error' and any(x.get('kind') == 'ReturnStmt' for x in items[i + 1:i + 2]):
+                n += 1
+                if line_of(s0) > first:
+                    ctx.report(rule, 'add:refusal-after-count', 'src/particle.c:%s reb_simulation_add_local' % line_of(s0),
+                               'this refusal (error and return) comes after r->N was incremented at line %s: the refused particle stays counted - it is in the array and found by its hash, absent from the tree, and every later particle has its index shifted' % first)
+    anchor(n >= 2, 'refusals (error + return) in reb_simulation_add_local')
+    ctx.covered(rule, 'every refusal of reb_simulation_add_local precedes the increment of r->N', n, floor=2)
+
+
 def run(ctx):
+    rule_add_refusals(ctx)
     from . import edges
     edges.rule_hash_stores(ctx, 'R14.15')            # a particle keeps the hash it was given
     rule_unsorted_removal_moves(ctx)
